@@ -478,8 +478,9 @@ InvUnwrapDomain ==
   (Done /\ vcase[1] = "unwrap") =>
      LET ct == CompactTab[<<<<vcase[2][1], vcase[2][2]>>, vcase[2][4]>>]
      IN \A M \in Molecules(Len(vcase[2][1]), vcase[2][2]) : ct[2][M]
-(* the operand worlds are inside the domain and sensitive: with the family's own boxes every
-   entry is specified; a specified entry is defined; without a box no angle is a right angle
+(* the operand worlds are inside the domain and sensitive: with the family's own boxes (large
+   enough that the true displacements are the minimum images) every entry is specified and
+   defined; without a box no angle is a right angle
    (cos # 0: a negated displacement shows) and the entries of a result are pairwise different
    (a wrongly broadcast operand shows) *)
 InvShapesDomain ==
@@ -487,8 +488,7 @@ InvShapesDomain ==
      LET res == vout[1][3]  ba == vcase[2][4]  fn == vcase[2][1]
          ents == {<<mi, ai>> : mi \in DOMAIN res, ai \in DOMAIN res[1]}
      IN /\ \A e \in ents :
-              /\ (ba = <<>> \/ ba[1] = "per" \/ ba[2] \in ShapeBoxesQuick) => res[e[1]][e[2]][2]
-              /\ res[e[1]][e[2]][2] => res[e[1]][e[2]][3]
+              /\ (ba = <<>> \/ ba[1] = "per" \/ ba[2] \in ShapeBoxesQuick) => res[e[1]][e[2]][2] /\ res[e[1]][e[2]][3]
               /\ (ba = <<>> /\ fn = "angle") => res[e[1]][e[2]][1][1] # 0
         /\ ba = <<>> => \A e1, e2 \in ents : e1 # e2 => res[e1[1]][e1[2]][1] # res[e2[1]][e2[2]][1]
 =============================================================================
